@@ -22,7 +22,7 @@ theorem command_count : commands.length = 115 := by decide +kernel
     of their declared fields (`commands_dropping_fields`). -/
 theorem non_conforming_commands :
     (commands.filter (fun c => !Conforms c)).map (·.name) =
-      ["NegotiateRequest", "NegotiateResponse", "WriteRequest"] := by decide +kernel
+      ["NegotiateResponse", "WriteRequest"] := by decide +kernel
 
 /-- the part of `Conforms` that `conforms_sound` rests on (everything but "no declared field is left
     out") fails for `WriteRequest` only -/
@@ -36,7 +36,7 @@ theorem core_non_conforming_commands :
 theorem commands_dropping_fields :
     (commands.filter (fun c => !allEmitted c)).map
         (fun c => (c.name, (c.fields.map (·.1)).filter (fun f => !(emittedDeep c.marshal).contains f))) =
-      [("NegotiateRequest", ["WordCount"]), ("NegotiateResponse", ["ServerName"])] := by decide +kernel
+      [("NegotiateResponse", ["ServerName"])] := by decide +kernel
 
 /-- the commands outside the straight-line fragment (a loop over a list field, a field emitted under
     a condition, bytes ahead of the parameter block): `Spec.Cifs.encode` is silent on them, so
